@@ -63,14 +63,16 @@ func wide(i int) string {
 		"Logger:\n  Level: %s\n"+
 		"SampleCache:\n  KeptSize: %d\n  DroppedSize: %d\n"+
 		"Specialized:\n  AdditionalAttributes:\n    env: e%d\n"+
-		"BufferSizes:\n  UpstreamBufferSize: %d\n",
+		"BufferSizes:\n  UpstreamBufferSize: %d\n"+
+		"IDFields:\n  TraceNames:\n    - traceId%d\n    - trace.trace_id\n    - a.trace\n  ParentNames:\n    - parentId\n    - trace.parent_id\n",
 		i+1, 50+10*i, 10+i, i%2 == 1,
 		i, i%2 == 1,
 		i%2 == 1, i%2 == 0, i%2 == 1,
 		[]string{"warn", "info", "debug"}[i%3],
 		20000+i, 2000000+i,
 		i,
-		20000+i)
+		20000+i,
+		i)
 }
 
 func rulesBody(rate int, extra string) string {
@@ -324,6 +326,19 @@ func exec(version string, h []event, verifyAll bool) (string, string, *seqx.Fail
 			}
 			outcome = "write"
 			continue
+		case "report":
+			// an observer: the effective configuration is serialised for a report (what the OpAMP agent does after
+			// every load). Reading the configuration must leave every getter as it was.
+			before := snapshot(s.cfg, s.dir)
+			if _, _, err := config.SerializeToYAML(s.cfg); err != nil {
+				ev.Harness("SerializeToYAML: %v", err)
+			}
+			if after := snapshot(s.cfg, s.dir); after != before {
+				return "", "", &seqx.Failure{Sig: "observer:effective-config-report-changes-getters:" + diffNames(before, after),
+					What: fmt.Sprintf("step %d %v (running config=%s rules=%s): serialising the effective configuration changed what the getters return, without any reload: %s", step, e, applied[0], applied[1], firstDiff(before, after))}
+			}
+			outcome = "report"
+			continue
 		}
 		// ---- a reload trigger
 		before := snapshot(s.cfg, s.dir)
@@ -529,6 +544,7 @@ func main() {
 		alphabet = append(alphabet, event{Op: "write", File: "rules", C: c.ID})
 	}
 	alphabet = append(alphabet, event{Op: "pubsubReload"})
+	alphabet = append(alphabet, event{Op: "report"})
 
 	// running versions: one at/before the `lastversion` of the deprecated keys used (deprecations are warnings),
 	// one after it (startup rejects them), and an unversioned development build ("dev": not a semver).
